@@ -563,34 +563,41 @@ func (s *Store) gcIndex(ctx context.Context) error {
 	}
 
 	// index referrer manifests
-	for ref, desc := range refMap {
-		if ref != desc.Digest.String() || tagged.Contains(desc.Digest) {
-			continue
-		}
-		// check if the referrers manifest can traverse to the existing graph
-		subject := &desc
-		for {
-			var err error
-			subject, err = manifestutil.Subject(ctx, s.storage, *subject)
-			if errors.Is(err, errdef.ErrNotFound) {
-				// the chain ends at content that is no longer stored
-				break
+	// repeat until nothing is added: a referrer's subject may only become
+	// reachable through another referrer that is indexed later
+	for indexed := true; indexed; {
+		indexed = false
+		for ref, desc := range refMap {
+			if ref != desc.Digest.String() || tagged.Contains(desc.Digest) {
+				continue
 			}
-			if err != nil {
-				return err
-			}
-			if subject == nil {
-				break
-			}
-			if graph.Exists(*subject) {
-				if err := tagResolver.Tag(ctx, deleteAnnotationRefName(desc), desc.Digest.String()); err != nil {
+			// check if the referrers manifest can traverse to the existing graph
+			subject := &desc
+			for {
+				var err error
+				subject, err = manifestutil.Subject(ctx, s.storage, *subject)
+				if errors.Is(err, errdef.ErrNotFound) {
+					// the chain ends at content that is no longer stored
+					break
+				}
+				if err != nil {
 					return err
 				}
-				plain := descriptor.Plain(desc)
-				if err := graph.IndexAll(ctx, s.storage, plain); err != nil {
-					return err
+				if subject == nil {
+					break
 				}
-				break
+				if graph.Exists(*subject) {
+					if err := tagResolver.Tag(ctx, deleteAnnotationRefName(desc), desc.Digest.String()); err != nil {
+						return err
+					}
+					plain := descriptor.Plain(desc)
+					if err := graph.IndexAll(ctx, s.storage, plain); err != nil {
+						return err
+					}
+					tagged.Add(desc.Digest)
+					indexed = true
+					break
+				}
 			}
 		}
 	}
